@@ -188,6 +188,8 @@ def pfb_frontend(x, pfb_window, num_taps, num_branches):
     x_summed : array
         Array of voltages post-PFB weighting
     """
+    # Python integers: numpy fixed-width values wrap around in W*num_taps*num_branches
+    num_taps, num_branches = int(num_taps), int(num_branches)
     W = int(len(x) / num_taps / num_branches)
     
     # Truncate data stream x to fit reshape step
@@ -226,6 +228,7 @@ def get_pfb_window(num_taps, num_branches, window_fn='hamming'):
     window : array
         Array of PFB windowing coefficients
     """ 
+    num_taps, num_branches = int(num_taps), int(num_branches)
     window = scipy.signal.firwin(num_taps * num_branches, 
                                  cutoff=1.0 / num_branches,
                                  window=window_fn,
@@ -260,5 +263,7 @@ def get_pfb_voltages(x, num_taps, num_branches, window_fn='hamming'):
     
     # Apply frontend, take FFT, then take power (i.e. square)
     x_fir = pfb_frontend(x, win_coeffs, num_taps, num_branches)
-    X_pfb = xp.fft.rfft(x_fir, num_branches, axis=1) / num_branches**0.5
+    # A full FFT cut to the non-negative channels: rfft refuses (or mangles) complex voltages
+    num_branches = int(num_branches)
+    X_pfb = xp.fft.fft(x_fir, num_branches, axis=1)[:, :num_branches // 2 + 1] / num_branches**0.5
     return X_pfb
